@@ -208,4 +208,28 @@ ExpectedType(cp, style) ==
 FnPrefix == <<70, 110, 58, 58>>     \* "Fn::"
 LongForm(short) == IF short \in {<<82, 101, 102>>, <<67, 111, 110, 100, 105, 116, 105, 111, 110>>}
                    THEN short ELSE FnPrefix \o short
-=============================================================================
+
+---------------------------------------------------------------------------
+(* JSON string escapes: the characters a string literal of a JSON document *)
+(* stands for (RFC 8259 section 7): \" \\ \/ \b \f \n \r \t, \uXXXX, and a   *)
+(* \uD800-\uDBFF \uDC00-\uDFFF pair for a character outside the BMP.        *)
+HexVal(ch) == IF ch \in 48 .. 57 THEN ch - 48 ELSE IF ch \in 97 .. 102 THEN ch - 87 ELSE ch - 55
+Hex4(s, i) == HexVal(s[i]) * 4096 + HexVal(s[i + 1]) * 256 + HexVal(s[i + 2]) * 16 + HexVal(s[i + 3])
+IsUEsc(s, i) == i + 5 <= Len(s) /\ s[i] = 92 /\ s[i + 1] = 117
+RECURSIVE Unescape(_, _)
+Unescape(s, i) ==
+  IF i > Len(s) THEN <<>>
+  ELSE IF s[i] # 92 THEN <<s[i]>> \o Unescape(s, i + 1)
+  ELSE LET e == s[i + 1] IN
+       CASE e = 110 -> <<10>> \o Unescape(s, i + 2)
+         [] e = 116 -> <<9>> \o Unescape(s, i + 2)
+         [] e = 114 -> <<13>> \o Unescape(s, i + 2)
+         [] e = 98 -> <<8>> \o Unescape(s, i + 2)
+         [] e = 102 -> <<12>> \o Unescape(s, i + 2)
+         [] e = 117 ->
+              LET h == Hex4(s, i + 2) IN
+              IF h \in 55296 .. 56319 /\ IsUEsc(s, i + 6) /\ Hex4(s, i + 8) \in 56320 .. 57343
+              THEN <<65536 + (h - 55296) * 1024 + (Hex4(s, i + 8) - 56320)>> \o Unescape(s, i + 12)
+              ELSE <<h>> \o Unescape(s, i + 6)
+         [] OTHER -> <<e>> \o Unescape(s, i + 2)
+========================================================================
